@@ -550,3 +550,108 @@ def step_at(samples, t):
         else:
             break
     return v
+
+
+def bool_ct(f, sig):
+    """Boolean satisfaction on grid cells (three-valued like bool_dt); same domain conventions as ct_cells.
+    Returns (K0, Kend, values)."""
+    from .formula import fvars
+    used = fvars(f)
+    K0 = min(sig[v][0][0] for v in used) if used else 0
+    Kend = min(sig[v][-1][0] for v in used) if used else K0
+    Kmax = max(sig[v][-1][0] for v in used) if used else K0
+    N = Kmax + total_bounds(f) + 1 - K0 + 1
+    memo = {}
+
+    def var(name):
+        s = sig[name]
+        out = []
+        j = 0
+        for k in range(K0, K0 + N):
+            while j + 1 < len(s) and s[j + 1][0] <= k:
+                j += 1
+            out.append(float(s[j][1]))
+        return out
+
+    def num(g):
+        k = g[0]
+        if k == 'var':
+            return var(g[1])
+        if k == 'const':
+            return [float(g[1])] * N
+        if k == 'un' and g[1] in ('abs', 'neg', 'sqrt', 'exp', 'ln'):
+            return [_arith_un(g[1], v) for v in num(g[2])]
+        if k == 'bin' and g[1] in ('+', '-', '*', '/', 'pow', 'log'):
+            return [_arith_bin(g[1], a, b) for a, b in zip(num(g[2]), num(g[3]))]
+        raise NotNumeric(g)
+
+    def ev(g):
+        if g in memo:
+            return memo[g]
+        memo[g] = out = _ev(g)
+        return out
+
+    def _ev(g):
+        k = g[0]
+        R = range(N)
+        if k in ('var', 'const') or (k == 'un' and g[1] in ('abs', 'neg', 'sqrt', 'exp', 'ln')) or \
+                (k == 'bin' and g[1] in ('+', '-', '*', '/', 'pow', 'log')):
+            return [True if v > 0 else (False if v < 0 else None) for v in num(g)]
+        if k == 'pred':
+            l, r = num(g[2]), num(g[3])
+            return [_sat(g[1], l[i], r[i]) for i in R]
+        if k == 'un':
+            op = g[1]
+            x = ev(g[2])
+            if op == 'not':
+                return [_not3(v) for v in x]
+            if op == 'once':
+                return [_any3(x[:i + 1]) for i in R]
+            if op == 'historically':
+                return [_all3(x[:i + 1]) for i in R]
+            if op == 'eventually':
+                return [_any3(x[i:]) for i in R]
+            if op == 'always':
+                return [_all3(x[i:]) for i in R]
+            raise ValueError(op)
+        if k == 'bin':
+            op = g[1]
+            l, r = ev(g[2]), ev(g[3])
+            if op == 'and':
+                return [_and3(a, b) for a, b in zip(l, r)]
+            if op == 'or':
+                return [_or3(a, b) for a, b in zip(l, r)]
+            if op == 'implies':
+                return [_or3(_not3(a), b) for a, b in zip(l, r)]
+            if op == 'since':
+                return [_any3(_and3(r[j], _all3(l[j:i + 1])) for j in range(0, i + 1)) for i in R]
+            if op == 'until':
+                return [_any3(_and3(r[j], _all3(l[i:j + 1])) for j in range(i, N)) for i in R]
+            raise ValueError(op)
+        if k == 'tun':
+            op, a, b = g[1], g[2], g[3]
+            x = ev(g[4])
+            out = []
+            for i in R:
+                if op in ('once', 'historically'):
+                    js = [j for j in range(i - b, i - a + 1) if 0 <= j]
+                else:
+                    js = [min(j, N - 1) for j in range(i + a, i + b + 1)]
+                out.append(_any3(x[j] for j in js) if op in ('once', 'eventually') else _all3(x[j] for j in js))
+            return out
+        if k == 'tbin':
+            op, a, b = g[1], g[2], g[3]
+            l, r = ev(g[4]), ev(g[5])
+            out = []
+            for i in R:
+                if op == 'since':
+                    v = _any3(_and3(r[j], _all3(l[j:i + 1])) for j in range(i - b, i - a + 1) if 0 <= j)
+                elif op == 'until':
+                    v = _any3(_and3(r[min(j, N - 1)], _all3(l[i:min(j, N - 1) + 1])) for j in range(i + a, i + b + 1))
+                else:
+                    raise ValueError(op)
+                out.append(v)
+            return out
+        raise ValueError(g)
+
+    return K0, Kend, ev(f)
